@@ -370,19 +370,24 @@ def body_reject(data) -> Outcome:
             want = IndexError
         else:  # reduced axis
             named = {a for fn in prog["funcs"] if fn["mapspec"] for p in fn["params"] if p["spec"] for a in p["spec"] if a}
+            def named_for(arr, a):
+                k = axes_of.get(arr, []).index(a)
+                if any(arr in g["outs"] and g["mapspec"] for g in prog["funcs"]):
+                    return True
+                return any(q["name"] == arr and q["spec"] is not None and q["spec"][k] == a
+                           for g in prog["funcs"] if g["mapspec"] for q in g["params"])
+
             reduced = set()
             for fn in prog["funcs"]:
                 for p in fn["params"]:
                     ax = axes_of.get(p["name"], [])
-                    ms_array = any(q["name"] == p["name"] and q["spec"] is not None for g in prog["funcs"] if g["mapspec"] for q in g["params"]) or any(
-                        p["name"] in g["outs"] and g["mapspec"] for g in prog["funcs"]
-                    )
-                    if not ax or not ms_array:
+                    if not ax:
                         continue
                     if p["spec"] is None or not fn["mapspec"]:
-                        reduced |= set(ax)
+                        red = set(ax)
                     else:
-                        reduced |= {x for x, s in zip(ax, p["spec"]) if s is None}
+                        red = {x for x, s in zip(ax, p["spec"]) if s is None}
+                    reduced |= {a for a in red if named_for(p["name"], a)}
             reduced &= named
             if not reduced:
                 out.labels = ["n/a:" + why]
